@@ -2971,12 +2971,6 @@ ythread_create(ABTI_global *p_global, ABTI_local *p_local, ABTI_pool *p_pool,
                                      ? ABTI_local_get_xstream(p_local)->p_thread
                                      : NULL,
                                  p_pool);
-        if (pool_op == THREAD_POOL_OP_PUSH) {
-            /* Add this thread to the pool */
-            ABTI_pool_push(p_pool, p_newthread->thread.unit,
-                           ABT_POOL_CONTEXT_OP_THREAD_CREATE);
-            ABTI_VERIF_POINT(ABTI_VERIF_P_CREATE_AFTER_PUSH);
-        }
     } else {
         /* pool_op == THREAD_POOL_OP_NONE */
         p_newthread->thread.p_pool = p_pool;
@@ -2989,8 +2983,17 @@ ythread_create(ABTI_global *p_global, ABTI_local *p_local, ABTI_pool *p_pool,
                                  NULL);
     }
 
-    /* Return value */
+    /* Return value.  It must be set before the ULT is pushed: once it is in
+     * the pool, another execution stream can run it to completion and free it
+     * together with the object pp_newthread points into (the scheduler of a
+     * stacked scheduler's ULT). */
     *pp_newthread = p_newthread;
+    if (pool_op == THREAD_POOL_OP_PUSH) {
+        /* Add this thread to the pool */
+        ABTI_pool_push(p_pool, p_newthread->thread.unit,
+                       ABT_POOL_CONTEXT_OP_THREAD_CREATE);
+        ABTI_VERIF_POINT(ABTI_VERIF_P_CREATE_AFTER_PUSH);
+    }
     return ABT_SUCCESS;
 }
 
